@@ -119,6 +119,7 @@ def corruptions(doc, rng):
     # duplicates
     d = clone(); d["types"].append("T1"); out.append(("dup-type", d))
     d = clone(); d["params"].append({"name": "P2", "type": "T1"}); out.append(("dup-param", d))
+    d = clone(); d["params"].insert(rng.randint(0, 3), dict(d["params"][1])); out.append(("dup-param-verbatim", d))
     j = rng.randrange(len(cs))
     d = clone(); d["conts"].insert(rng.randint(0, len(cs)), dict(clone()["conts"][j])); out.append(("dup-container-identical", d))
     d = clone(); x = dict(clone()["conts"][j]); x["variant"] = 1; d["conts"].insert(rng.randint(0, len(cs)), x); out.append(("dup-container-conflicting", d))
